@@ -917,7 +917,7 @@ class ViewsTiny(ViewsBase):
 
     def generate(self, rng, tier):
         scopes = [(1, 1), (2, 2), (3, 2), (3, 3), (4, 2)] if tier == "quick" else [(1, 2), (2, 3), (3, 3), (4, 2), (4, 3)]
-        budget = 700 if tier == "quick" else 12000
+        budget = 700 if tier == "quick" else 8000
         allc = []
         for n, L in scopes:
             for tv, edges in tiny_descs(n, L):
@@ -944,7 +944,7 @@ class ViewsRand(ViewsBase):
     name = "views_rand"
 
     def generate(self, rng, tier):
-        n = 2000 if tier == "quick" else 20000
+        n = 2000 if tier == "quick" else 15000
         for i in range(n):
             big = rng.random() < 0.15
             desc = gen_ts.random_desc(rng, max_nodes=12 if big else 7, max_L=8 if big else 5,
@@ -1092,7 +1092,7 @@ class SweepTiny(SweepBase):
 
     def generate(self, rng, tier):
         scopes = [(2, 2), (3, 2), (3, 3), (4, 2)] if tier == "quick" else [(2, 3), (3, 3), (4, 2), (4, 3)]
-        budget = 600 if tier == "quick" else 6000
+        budget = 600 if tier == "quick" else 4000
         allc = [(n, L, tv, edges) for n, L in scopes for tv, edges in tiny_descs(n, L)]
         keep = allc if len(allc) <= budget else rng.sample(allc, budget)
         for n, L, tv, edges in keep:
@@ -1110,7 +1110,7 @@ class SweepRand(SweepBase):
     name = "sweep_rand"
 
     def generate(self, rng, tier):
-        n = 700 if tier == "quick" else 8000
+        n = 700 if tier == "quick" else 6000
         for i in range(n):
             desc = gen_ts.random_desc(rng, max_nodes=9, max_L=6, max_sites=rng.choice([0, 3, 5]),
                                       max_muts=3, metadata=False,
